@@ -90,9 +90,12 @@ func c03Atom(r *rng, depth int) operand {
 	default:
 		if depth > 0 {
 			ch := c03Chain(r, 1+r.intn(3), depth-1, false)
+			if r.chance(1, 5) { // directly nested parentheses are nodes of their own
+				return operand{"((" + ch.text + "))", nil, "paren"}
+			}
 			return operand{"(" + ch.text + ")", nil, "paren"}
 		}
-		return operand{"(a)", nil, "paren"}
+		return operand{pick(r, []string{"(a)", "(a)", "((a))", "(((a)))"}), nil, "paren"}
 	}
 }
 
@@ -288,6 +291,10 @@ func propC03(o *out, r *rng, thorough bool) {
 		c03One(o, c03Chain(r, k, 2, true), "random")
 	}
 	// witnesses of the known finding, so that it is reported while it persists
+	for _, w := range []string{"((a + b)) * c", "(((a)))", "((a)) + ((b))", "-((a))"} {
+		addParseExprCase(o, w, nil)
+		o.count("nested-parens")
+	}
 	for _, w := range []string{"b / -a", "x * -f(y)", "1 % -(a + b)"} {
 		c03One(o, chain{text: w, ops: nil, rands: []operand{{w, nil, "witness"}}}, "witness")
 	}
